@@ -8,6 +8,10 @@ from pathlib import Path
 import vf
 
 NATIVE = {
+    "C10": [
+        dict(name="c10_witness_search", cmd="c10", rustflags="", kind="exhaustive", tier="quick", fn="Game::make_move,Game::offer_draw,Game::accept_draw,Game::resign,Game::declare_draw,Game::result,Game::current_position,Game::side_to_move",
+             desc="witness search (15 s, seeded): random interleavings of legal/illegal move attempts, offers, accepts, resignations and declarations from six start positions incl. already mated / stalemated ones, against an independent protocol model; NOT a proof — it supplies concrete action sequences for failing Verus obligations"),
+    ],
     "C11": [
         dict(name="c11_known_ep_identity", cmd="c11_ep", rustflags="", kind="exhaustive", tier="quick", fn="Game::can_declare_draw,Board::set_ep,Board::get_hash",
              desc="replay of the recorded finding: after 1...d5 beside a PINNED white e-pawn the position repeats three times by the Laws, but its first occurrence is hashed with an en-passant flag and is not counted"),
